@@ -212,6 +212,9 @@ func c08Scenarios(tier string) []*Scenario {
 		add(prepare(&c08Case{name: "retry-blocking", stack: []Spec{retry}, script: blocking, source: src, at: 30}))
 		add(prepare(&c08Case{name: "fallback(retry)", stack: []Spec{fb, retry}, script: failing, source: src, at: 40}))
 		add(prepare(&c08Case{name: "fallback(retry)", stack: []Spec{fb, retry}, script: failing, source: src, at: 10}))
+		fbCancel := Spec{Kind: KFallback, FbV: 9, Handle: []Cond{{K: "errs", E: context.Canceled, Es: []error{context.DeadlineExceeded, failsafe.ErrExecutionCanceled}}}}
+		add(prepare(&c08Case{name: "fallback-handling-cancellation(retry)", stack: []Spec{fbCancel, retry}, script: failing, source: src, at: 40}))
+		add(prepare(&c08Case{name: "fallback-handling-cancellation(retry)", stack: []Spec{fbCancel, retry}, script: failing, source: src, at: 10}))
 		add(prepare(&c08Case{name: "retry(breaker)", stack: []Spec{retry, {Kind: KBreaker, FT: 5, FC: 5, BDelay: time.Hour}}, script: failing, source: src, at: 40}))
 		add(prepare(&c08Case{name: "retry(bulkhead-wait)", stack: []Spec{retry, {Kind: KBulkhead, Conc: 1, Held: 1, BWait: 100}}, script: failing, source: src, at: 30}))
 		add(prepare(&c08Case{name: "retry(limiter-wait)", stack: []Spec{retry, {Kind: KLimiter, Smooth: true, Interval: 100, LWait: 1000, Used: 1}}, script: failing, source: src, at: 30}))
@@ -244,6 +247,45 @@ func c08Scenarios(tier string) []*Scenario {
 		add(prepare(&c08Case{name: "bulkhead-wait(retry)", stack: []Spec{bulkWait, retry}, script: failing, source: src, at: 30}))
 		add(prepare(&c08Case{name: "breaker(limiter-wait(retry))", stack: []Spec{{Kind: KBreaker, FT: 5, FC: 5, BDelay: time.Hour}, limWait, retry}, script: failing, source: src, at: 30}))
 		add(prepare(&c08Case{name: "fallback(limiter-wait(hedge))", stack: []Spec{fb, limWait, hedge}, script: []Out{coop(200, E1, 0)}, source: src, at: 30}))
+	}
+	// two executions wait on the same full bulkhead / exhausted limiter; the later one is cancelled and
+	// leaves at once, whatever the other one still waits for
+	for _, w := range []struct {
+		name string
+		s    Spec
+	}{{"bulkhead", Spec{Kind: KBulkhead, Conc: 1, Held: 1, BWait: 200}}, {"limiter", Spec{Kind: KLimiter, Smooth: true, Interval: 300, LWait: 1000, Used: 1}}} {
+		for _, src := range []ExeSpec{{Ctx: "cancel", CancelAt: 30}, {Ctx: "deadline", CancelAt: 30}, {Async: true, CancelAsync: true, CancelAt: 30}} {
+			w, src := w, src
+			first := ExeSpec{Script: failing}
+			second := src
+			second.Script, second.StartAt = failing, 1
+			stack := []Spec{w.s, retry}
+			out = append(out, &Scenario{
+				Name:  fmt.Sprintf("C08/two-waiters/%s [%s] %s", w.name, stackStr(stack), exesStr([]ExeSpec{first, second})),
+				Bound: bound, Reduce: true,
+				Body: multiBody(stack, []ExeSpec{first, second}, MultiOpts{Reduce: true, Grace: 10 * R, Final: func(env *Env) string {
+					x := env.Exes[1]
+					if !x.Completed {
+						return "the cancelled execution did not complete"
+					}
+					want := map[string]error{"cancel": context.Canceled, "deadline": context.DeadlineExceeded, "": failsafe.ErrExecutionCanceled}[src.Ctx]
+					if !errors.Is(x.ResE, want) {
+						return fmt.Sprintf("the cancelled waiter got (%d,%v), want %v", x.ResV, x.ResE, want)
+					}
+					tc := x.CancelTime
+					if src.Ctx == "deadline" {
+						tc = 30
+					}
+					if x.DoneAt != tc {
+						return fmt.Sprintf("the waiter cancelled at t=%d completed at t=%d (it waited for the other waiter)", tc, x.DoneAt)
+					}
+					if len(x.Invs) != 0 {
+						return "the cancelled waiter's function was invoked"
+					}
+					return ""
+				}}),
+			})
+		}
 	}
 	// enclosing Timeout as the source (it is part of the program: the outcome is the program's)
 	T := func(l time.Duration) Spec { return Spec{Kind: KTimeout, Limit: l} }
